@@ -262,7 +262,25 @@ class CallMixin:
     def call_contract(self, fs, module, ci, fdef, args, kwargs):
         bound = self.bind_params(fdef, args, kwargs)
         # type the arguments as the callee declares them
-        case = self.select_case(fs, fdef, bound)
+        try:
+            case = self.select_case(fs, fdef, bound)
+        except Unsupported:
+            fb = fs.d.get('fallback')
+            if fb is None:
+                raise
+            # no typed case of the callee accepts these arguments (e.g. an opaque decoded value where the cases give
+            # shapes): the contract's `fallback` -- an ASSUMED contract for all other shapes, listed as such -- is used
+            from .spec import FuncSpec
+            fs2 = getattr(fs, '_fallback_spec', None)
+            if fs2 is None:
+                d2 = dict(fb)
+                d2.setdefault('self', fs.self_type)
+                d2.setdefault('props', list(fs.props))
+                fs2 = FuncSpec(fs.key, d2)
+                fs._fallback_spec = fs2
+            self.notes.append('assumed fallback contract used for a call of %s' % fs.key)
+            fs = fs2
+            case = None
         ptypes = self.param_types(fs, fdef, case=case)
         for n, t in ptypes.items():
             if isinstance(t, str):
